@@ -498,6 +498,18 @@ func (x *Exec) applyContract(st *State, ct *Contract, sig *types.Signature, name
 			post.names[n] = rvals[i]
 		}
 	}
+	// names bound inside the callee ("bind") are unknown values from the caller's point of view
+	for _, a := range ct.Asserts {
+		if a.Bind != "" {
+			if _, ok := post.names[a.Bind]; !ok {
+				srt := SInt
+				if a.E.Kind == "call" && (a.E.Name == "arr" || a.E.Name == "upd") {
+					srt = SArr(SInt, SInt)
+				}
+				post.names[a.Bind] = b.Fresh("callee."+a.Bind, srt)
+			}
+		}
+	}
 	for _, gs := range ct.GhostSets {
 		x.applyGhostSet(post, gs)
 	}
